@@ -54,20 +54,22 @@ CLAUSES = {"setup_once_before_claims", "at_most_one_claim_per_partition", "exact
            "claim_starts_at_committed_or_initial", "cleanup_once_after_claims_returned", "final_commit_after_cleanup",
            "consume_returns_last", "requests_carry_issued_identity", "fenced_member_rejoins_fresh",
            "no_skip_across_sessions", "consume_hang", "close_hang", "consume_panic", "channels_closed_after_close",
-           "identity_kept_unless_fenced", "leave_on_close", "heartbeats_until_final_commit", "setup_within_retry_budget",
+           "identity_kept_unless_fenced", "leave_on_close", "heartbeats_until_final_commit", "setup_within_retry_budget", "rebalance_within_retry_budget",
            "sync_plan_complete"}   # sync_plan_complete decides part of C08 (assignments as sent through SyncGroup); vlib reports under C07
-SHUTDOWN_CLAUSES = {"consume_hang", "close_hang", "consume_panic", "channels_closed_after_close", "setup_within_retry_budget"}
+SHUTDOWN_CLAUSES = {"consume_hang", "close_hang", "consume_panic", "channels_closed_after_close", "setup_within_retry_budget",
+                    "rebalance_within_retry_budget"}
 ONLY = ["group_*"]
 STRATEGIES = ["range", "roundrobin", "sticky"]
 
 # non-vacuity: broken variants of the model and the clause family each one has to violate
 BUGS_QUICK = ["fence_keeps_id_without_budget", "final_commit_one_short", "commit_keeps_stale_coordinator", "setup_fail_blocks_release",
-              "hb_stops_before_cleanup", "lookup_loop_ignores_close", "leave_skips_lock"]
+              "hb_stops_before_cleanup", "lookup_loop_ignores_close", "leave_skips_lock", "sync_rebalance_rejoins_at_once"]
 BUG_EXPECT = {"claim_fail_no_cancel": "ClaimFailEndsSession", "setup_fail_blocks_release": "SetupFailureReturns",
               "lookup_loop_ignores_close": "SetupFailureReturns"}   # default: NoViolation
 BUG_BASE = {"fence_keeps_id_without_budget": "Group.mc.retry.cfg", "final_commit_one_short": "Group.mc.retry.cfg",
             "claim_fail_no_cancel": "Group.mc.retry.cfg", "commit_keeps_stale_coordinator": "Group.mc.retry.cfg",
-            "setup_fail_blocks_release": "Group.mc.retry.cfg", "lookup_loop_ignores_close": "Group.mc.retry.cfg"}   # default: Group.bug.cfg
+            "setup_fail_blocks_release": "Group.mc.retry.cfg", "lookup_loop_ignores_close": "Group.mc.retry.cfg",
+            "sync_rebalance_rejoins_at_once": "Group.mc.retry.cfg"}   # default: Group.bug.cfg
 BUGS_ALL = BUGS_QUICK + ["skip_cleanup", "claim_fail_no_cancel", "keep_member_id", "claim_at_initial", "stale_hb_identity", "skip_setup", "no_final_commit", "cleanup_early", "stale_commit_identity"]
 
 
@@ -314,6 +316,15 @@ def shutdown_scenarios():
                                                                     _sess("drain", 1, 1, ("close", "rejoin"))])]))
     out.append(_scen("sd-close-hold-first-join-two", [_client("c1", [_sess("drain", 1, 1, ("close", "join"))]),
                                                       _client("c2", [_sess("drain", 1, 1, ("close", "claim"))])]))
+    # a rebalance that does not settle: EVERY SyncGroup (or JoinGroup) of the call is answered REBALANCE_IN_PROGRESS. Without Close
+    # Consume returns the error after Rebalance.Retry.Max + 1 rounds and the next call works; with a big budget and Close at the
+    # third refusal the back-off loop has to notice the closed group
+    for what in ("sync", "join"):
+        for rr in (0, 2):
+            out.append(_scen("sd-%s-rebalance-forever-rr%d" % (what, rr),
+                             [_client("c1", [_sess("drain", 1, 1, ("%s_rebalance_forever" % what, "join")), ok1])], rretry=rr))
+        out.append(_scen("sd-%s-rebalance-forever-close" % what,
+                         [_client("c1", [_sess("drain", 1, 1, ("%s_rebalance_forever_close" % what, "join"))])], rretry=20))
     # the coordinator cannot be found (from the start / after a NOT_COORDINATOR answer to JoinGroup): Consume keeps looking it
     # up; Close during that retry loop has to end it
     out.append(_scen("sd-nocoord-close", [_client("c1", [_sess("drain", 1, 1, ("nocoord_close", "join"))])]))
